@@ -67,7 +67,8 @@ fn real_main() {
             let mut summary = Vec::new();
             for (k, ent) in plan.split(',').enumerate() {
                 let f: Vec<&str> = ent.split(':').collect();
-                let vocab = f[0].to_string();
+                let nat = f[0].starts_with("nat-");
+                let vocab = f[0].trim_start_matches("nat-").to_string();
                 let n: usize = f.get(1).and_then(|x| x.parse().ok()).unwrap_or(100);
                 let threads: usize = f.get(2).and_then(|x| x.parse().ok()).unwrap_or(2);
                 let max_ops: usize = f.get(3).and_then(|x| x.parse().ok()).unwrap_or(5);
@@ -88,8 +89,9 @@ fn real_main() {
                         ntags: 4,
                         stall: rng.chance(1, 3),
                         residue: if rng.chance(1, 2) { Some(rng.below(16)) } else { None },
+                        nat,
                     };
-                    let label = format!("rand:{}:{}:{}:{}:{}:{}", vocab, seed, k, i, threads, max_ops);
+                    let label = format!("{}rand:{}:{}:{}:{}:{}:{}", if nat { "nat:" } else { "" }, vocab, seed, k, i, threads, max_ops);
                     ran += 1;
                     if !rcrun::run_random(&mut ctl, &cfg, &mut rng, &label) {
                         aborted += 1;
